@@ -169,6 +169,12 @@ func (m *Model) lockOpOf(c ssa.CallInstruction) (lockOp, bool) {
 				return lockOp{Instr: c, Lock: l, Acquire: true}, true
 			}
 		}
+		// release wrappers: a small package function that does nothing but release one lock
+		if callee := cc.StaticCallee(); callee != nil {
+			if l, ok := m.releaseWrapper(callee); ok {
+				return lockOp{Instr: c, Lock: l, Acquire: false, Deferred: deferred}, true
+			}
+		}
 		// calling the release function such a wrapper returned: `defer b.lock()()`
 		if call, ok := cc.Value.(*ssa.Call); ok && !cc.IsInvoke() {
 			if w := call.Common().StaticCallee(); w != nil {
@@ -652,6 +658,46 @@ func (m *Model) lockWrapper(fn *ssa.Function) (lockID, bool) {
 	}
 	m.wrapperCache[fn] = wrapperInfo{acq[0].Lock, true}
 	return acq[0].Lock, true
+}
+
+// releaseWrapper: a package function whose only lock operation is one Unlock (of a mutex field
+// or of the Locker of a condition variable) and that calls nothing else.
+func (m *Model) releaseWrapper(fn *ssa.Function) (lockID, bool) {
+	if r, ok := m.relWrapperCache[fn]; ok {
+		return r.l, r.ok
+	}
+	if m.relWrapperCache == nil {
+		m.relWrapperCache = map[*ssa.Function]wrapperInfo{}
+	}
+	m.relWrapperCache[fn] = wrapperInfo{}
+	if !m.inPkg(fn) || len(fn.Blocks) != 1 {
+		return lockID{}, false
+	}
+	var rel []lockOp
+	okShape := true
+	m.eachCall(fn, func(c ssa.CallInstruction) {
+		cc := c.Common()
+		_, deferred := c.(*ssa.Defer)
+		isUnlock := isMethodCall(cc, "sync", "Mutex", "Unlock") || isMethodCall(cc, "sync", "RWMutex", "Unlock") || cc.IsInvoke() && isNamed(cc.Value.Type(), "sync", "Locker") && cc.Method.Name() == "Unlock"
+		if !isUnlock || deferred {
+			okShape = false
+			return
+		}
+		recv := cc.Value
+		if !cc.IsInvoke() {
+			recv = cc.Args[0]
+		}
+		if f, owner := m.lockFieldOf(recv); f != nil {
+			rel = append(rel, lockOp{Instr: c, Lock: lockID{f, owner, m.lockRole(f, owner)}})
+		} else {
+			okShape = false
+		}
+	})
+	if !okShape || len(rel) != 1 {
+		return lockID{}, false
+	}
+	m.relWrapperCache[fn] = wrapperInfo{rel[0].Lock, true}
+	return rel[0].Lock, true
 }
 
 // wrapperReturnsRelease: the wrapper's result is the Unlock method value of the lock it took.
